@@ -175,6 +175,10 @@ known("C05", r"^asm_data\|silent/END\|(C13:no-internal-error|C05:accepted)\|sile
 known("C13", r"^asm_forms\|[^|]*/(neg5|dec5)/\w+/equ\|C13:no-internal-error\|[^|]*:escape:(ValueTypeError:val=-1000000000\.\.-32769|AttributeError:val=65536\.\.1000000000):",
       "an EQU symbol whose value lies outside -32768..65535, used as an operand, raises ValueTypeError (below -32768) or "
       "AttributeError (above 65535) instead of a diagnostic", {"asm": ["V EQU -39001", " LDA V"]})
+known("C13", r"^asm_text\|alias/[\w-]+\|C13:no-internal-error#[23][ab]\|alias/[\w-]+:[23][ab]:escape:AttributeError@Program\.translate_statements$",
+      "an EQU symbol that names another symbol (alias, chain or cycle), used as an IMMEDIATE operand, raises AttributeError in "
+      "symbol resolution instead of a diagnostic (the alias has no numeric value; the other operand positions are diagnosed)",
+      {"asm": ["FIRST EQU SECOND", "SECOND EQU $10", " LDA #FIRST"]}, also=("C04",))
 # asm_text: exact failing inputs per mnemonic and root cause (known_text_inputs.json, tools/mktextknown.py)
 import re as _re
 _TXT = json.load(open(os.path.join(ROOT, "known_text_inputs.json")))
